@@ -138,7 +138,7 @@ def classify_item(item, fmt):
     """Mechanism key for one diff item of a save/load round trip in format fmt."""
     f = item["field"]
     exp, obs = item["exp"], item["obs"]
-    if f in ("values", "replaced-by-default") and item.get("kind", "prop") == "prop" and \
+    if f in ("values", "replaced-by-default", "child-missing") and item.get("kind", "prop") == "prop" and \
             "element-with-syntax-char" in values_shape(exp or [], item.get("ctx", {}).get("dtype")):
         return "%s/tuple-element-with-syntax-char" % fmt
     if f == "values":
@@ -146,6 +146,13 @@ def classify_item(item, fmt):
                                     values_effect(exp, obs))
     if f.endswith("_cardinality"):
         return "%s/cardinality:%s/%s" % (fmt, card_shape(exp), "dropped" if obs is None else "altered")
+    if f == "child-missing":
+        shape = values_shape(exp, item.get("ctx", {}).get("dtype")) if item.get("kind") == "prop" else "section"
+        return "%s/child-missing:%s" % (fmt, shape)
+    if f == "child-extra":
+        return "%s/child-extra:%s" % (fmt, item.get("kind"))
+    if f.endswith(".order"):
+        return "%s/children:%s/reordered" % (fmt, f.split(".")[0])
     if f.endswith(".names"):
         return "%s/children:%s/changed" % (fmt, f.split(".")[0])
     if f == "replaced-by-default":
